@@ -92,7 +92,7 @@ impl FeatureFromStrFn {
                 let mut matches = Vec::new();
                 for (_, (v, name)) in &derive.values {
                     matches.push(quote! {
-                        #name => Some(#ident_enum::#v),
+                        #name => Some(Self::#v),
                     });
                 }
                 quote! {
@@ -116,7 +116,7 @@ impl FeatureFromStrFn {
                             for (i, n) in Self::#ident_table_name.iter().enumerate() {
                                 if s == *n {
                                     // Safety: the number is known to be a valid enum
-                                    return Some(unsafe { ::core::mem::transmute((i as #repr).wrapping_add(#ident_enum::#ident_min as #repr)) });
+                                    return Some(unsafe { ::core::mem::transmute((i as #repr).wrapping_add(Self::#ident_min as #repr)) });
                                 }
                             }
                             None
